@@ -1,4 +1,22 @@
-"""C01  Field index answers every comparison query exactly, after any history."""
+"""C01  Field index answers every comparison query exactly, after any history.
+
+Generator modes (measured, quick tier, seed 0, 4000 cases): small 78%, bulk-hot 17%, bulk-wide 4%; the largest
+posting reached 65-120 docids in 11%, 121-300 in 6%, > 300 in 0.2% of the cases; > 30 distinct values in 4%;
+> 120 documents without a value in 2%; value kinds int 24%, num (int/float/bool mixed) 20%, str 20%, tuple 10%,
+bytes 10%, wide 10%, widestr 6%.
+
+Size- / value- / entry-point-dependent mutations tried on scratch copies (VERIF_REPO=/var/tmp/mut_strong1_<N>,
+deleted afterwards), all VIOLATION with a shrunk replay, quick tier, seed 0:
+  M1  applyInRange ignores excludemin/excludemax when the forward BTree has more than 32 keys (needs bulk-wide)
+  M2  index_doc takes a falsy value ('' / () / b'') as "no value"
+  M6  BaseIndexMixin.docids drops not_indexed once more than 150 documents are indexed (needs bulk)
+  M8  search() turns a float constant q into the range (int(q), q)
+  M9  reindex_doc returns early for an id that is not indexed yet
+  M11 apply({'query': [..]}) defaults to operator 'and'
+  M12 docids() cached on (indexed_count, not_indexed_count)
+and the seeded changes C01_C (range fast path ignoring exclusive bounds) and C01_F (postings start as Set, promoted to
+TreeSet at 64 docids, the 65th docid is lost).
+"""
 from lib.core import exc_name, idset
 
 ID = "C01"
@@ -7,15 +25,26 @@ THEOREMS = ["Hyp.Field." + t for t in (
     "c01_refinement", "c01_inrange", "c01_eq", "c01_any", "c01_gt", "c01_ge", "c01_lt", "c01_le",
     "c01_docids", "c01_noteq", "c01_notany", "c01_notinrange", "c01_inverted_range_empty", "c01_any_nil",
     "c01_no_stale", "c01_eq_tuple_is_range")]
-CASES = {"quick": 2000, "thorough": 40000}
-BUDGET_S = {"quick": 40, "thorough": 700}
-RULE = ("histories of 5-60 (thorough: up to 400) index/reindex/unindex/reset calls over docids 0..15 plus "
-        "extreme ids, 3-8 values (int or str, order-preservingly ranked for the model), 20% no-value, "
-        "10% unindex (half unknown ids), 3% reset; after each op with prob. 1/4 and at the end all ten "
-        "comparisons via index.applyX and via index.X(..).execute() with constants present/absent/below/"
-        "above/between, inverted ranges, empty and duplicate any-lists; both BTrees families; attribute and "
-        "callable discriminators. non-trivial = state becomes non-empty and the answers contain at least "
-        "one non-empty and two different id sets")
+CASES = {"quick": 4000, "thorough": 40000}
+BUDGET_S = {"quick": 34, "thorough": 660}
+RULE = ("small mode (78%): histories of 5-60 (thorough: up to 400) index_doc/reindex_doc/unindex_doc/reset calls "
+        "over docids 0..15 plus extreme ids, 3-8 values, 17% no-value, 8% identical content again, 10% unindex "
+        "(half unknown ids, sometimes twice), 3% reset; bulk-hot mode (17%): 70-400 documents (dense or strided "
+        "docid runs anywhere in the family's range, ascending/descending/shuffled) share 1-4 values so that one "
+        "posting holds 65-400 docids, in 12% of them also 121-199 documents without a value, in 45% a drain that "
+        "takes the big posting back to 58-66 docids (or to nothing) by unindex / withdrawal / re-valuing, then a "
+        "small history on first/last/random bulk ids and fresh ids; bulk-wide mode (4%): 70-400 documents over "
+        "35-110 distinct values (forward BTree beyond one bucket). Value pools, ranked order-preservingly to Int "
+        "for the model: int, str (incl. ''), num (ints, floats and bools mixed: 0 == 0.0 == -0.0 == False, 1 == 1.0 "
+        "== True, 2**53 == float(2**53) are ONE value whose spellings take turns; -2**70 .. 2**70, +-inf), tuples "
+        "of numbers (Eq with a tuple constant = finding D13), bytes (incl. b''), 120 ints / 120 strings. After "
+        "each op with prob. 1/4 and at the end all ten comparisons via index.applyX and via "
+        "index.X(..).execute() with constants present/absent/neighbouring/below/above, inverted ranges, empty and "
+        "duplicate any-lists; FieldIndex.apply() itself with {'query': v}, {'query': [..], 'operator': "
+        "'or'/'and'/absent}, bare value, list, RangeValue (bare and in a dict); the enumeration tuple (indexed, "
+        "not_indexed, docids, counts, unique_values; sometimes twice in a row) and document_repr; both BTrees "
+        "families; attribute and callable discriminators. non-trivial = the answers contain at least one "
+        "non-empty and three different id sets")
 LEVEL_TEXT = ("Lean 4 refinement proof: for every history the model of FieldIndex represents the history's "
               "document table (invariant by induction over operations), and every comparison / negation "
               "returns exactly the ids whose current value satisfies it, for all constants and any linearly "
@@ -28,21 +57,59 @@ TECHNIQUE = "Lean 4 refinement invariant by induction over operation histories +
 
 INT_POOL = [-100, -1, 0, 1, 2, 3, 5, 8, 13, 21, 100, 2 ** 40]
 STR_POOL = ["", "A", "Z", "a", "ab", "abc", "b", "ba", "c", "z", "é", "中"]
+
+
+class Alt(tuple):
+    """several Python objects that are one value (equal under ==, same hash): one rank for the model"""
+
+
+# value pools: ascending, mutually orderable; the rank (position) is what the model sees.
+#   num    ints and floats mixed: equal numbers of different types (0 == 0.0 == -0.0 == False, 1 == 1.0 == True,
+#          2**53 == float(2**53)), negative, huge (beyond 64 bit), non-integral neighbours, +-inf
+#   tuple  tuples of numbers (prefix order, equal tuples of different element types, 2-tuples = the legacy
+#          range form D13 when used as an Eq constant)
+#   bytes  byte strings incl. the empty one and NUL
+#   wide / widestr   120 values: the forward BTree gets more keys than one bucket holds (30)
+NUM_POOL = [float("-inf"), -2 ** 70, -1e10, -100, -1.5, -1, -0.5, Alt((0, 0.0, -0.0, False)), 0.5,
+            Alt((1, 1.0, True)), 1.5, Alt((2, 2.0)), 3, 2 ** 40, 2 ** 40 + 0.5, Alt((2 ** 53, float(2 ** 53))),
+            2 ** 53 + 1, 2 ** 70, 1e30, float("inf")]
+TUPLE_POOL = [(), (-1,), (0,), (0, 0), (0, 0, 0), (0, 1), (0, 1.5), Alt(((1,), (1.0,), (True,))),
+              Alt(((1, 0), (1.0, 0), (1, 0.0))), (1, 0, "a"), (1, 0, "b"), (1, 1), (1, 2, 3), (2 ** 40,)]
+BYTES_POOL = [b"", b"\x00", b"A", b"a", b"a\x00", b"ab", b"b", b"\xff"]
+WIDE_POOL = [7 * i - 400 for i in range(120)]
+WIDESTR_POOL = ["k%03d" % i for i in range(120)]
+POOLS = {k: [e if isinstance(e, Alt) else Alt((e,)) for e in v] for k, v in (
+    ("int", INT_POOL), ("str", STR_POOL), ("num", NUM_POOL), ("tuple", TUPLE_POOL), ("bytes", BYTES_POOL),
+    ("wide", WIDE_POOL), ("widestr", WIDESTR_POOL))}
+VTYPES = ["int"] * 5 + ["str"] * 4 + ["num"] * 4 + ["tuple"] * 2 + ["bytes"] * 2 + ["wide"] * 2 + ["widestr"]
 IDS64 = list(range(16)) + [2 ** 31 - 1, -2 ** 31, 2 ** 62, -2 ** 62]
 IDS32 = list(range(16)) + [2 ** 31 - 1, -2 ** 31]
 OPS = ["eq", "noteq", "gt", "ge", "lt", "le", "any", "notany", "inrange", "notinrange"]
+
+
+def pool_of(vtype):
+    return POOLS[vtype or "int"]
+
+
+def rank_table(vtype):
+    """repr of every pool object -> rank"""
+    return {repr(a): r for r, alts in enumerate(pool_of(vtype)) for a in alts}
 
 
 class Doc(object):
     pass
 
 
-def gen_query(rng, used):
+def gen_query(rng, used, npool=len(INT_POOL)):
     op = rng.choice(OPS)
-    n = len(INT_POOL)
+    n = npool
 
     def const():
-        return rng.choice(used) if used and rng.random() < 0.6 else rng.randrange(n)
+        if used and rng.random() < 0.6:
+            return rng.choice(used)
+        if used and rng.random() < 0.5:            # a neighbour of a used value (absent / between, on wide pools too)
+            return min(n - 1, max(0, rng.choice(used) + rng.choice([-1, 1])))
+        return rng.randrange(n)
     if op in ("any", "notany"):
         k = rng.choice([0, 1, 1, 2, 3, 4])
         cs = [const() for _ in range(k)]
@@ -58,53 +125,221 @@ def gen_query(rng, used):
     return [op, const()]
 
 
-def gen_history(rng, tier, ids, nvals, maxlen):
-    used = sorted(rng.sample(range(len(INT_POOL)), nvals))
-    cmds = []
-    for _ in range(rng.randrange(5, maxlen)):
-        r = rng.random()
-        d = rng.choice(ids)
-        if r < 0.03:
-            cmds.append(["reset"])
-        elif r < 0.13:
-            cmds.append(["unindex", d if rng.random() < 0.5 else rng.choice(ids)])
-        elif r < 0.33:
-            cmds.append(["index", d, "none"])
+def gen_apply(rng, used, npool):
+    """FieldIndex.apply() called directly: dict forms, bare values, lists, RangeValue"""
+    def const():
+        return rng.choice(used) if used and rng.random() < 0.7 else rng.randrange(npool)
+    r = rng.random()
+    if r < 0.3:
+        return ["qa", rng.choice(["d", "b"]), "eq", const()]
+    if r < 0.6:
+        return ["qa", rng.choice(["d", "dd", "b"]), "any"] + [const() for _ in range(rng.choice([0, 1, 2, 3]))]
+    if r < 0.75:
+        cs = [const() for _ in range(rng.choice([0, 1, 2, 2, 3]))]
+        if cs and rng.random() < 0.5:
+            cs = [cs[0]] * len(cs)
+        return ["qa", "d", "and"] + cs
+    return ["qa", rng.choice(["d", "b"]), "range", "none" if rng.random() < 0.2 else const(),
+            "none" if rng.random() < 0.2 else const()]
+
+
+def gen_queries(rng, used, npool, cmds, k):
+    for _ in range(k):
+        if rng.random() < 0.12:
+            cmds.append(gen_apply(rng, used, npool))
         else:
-            cmds.append(["index", d, rng.choice(used)])
-        if rng.random() < 0.25:
-            for _ in range(rng.randrange(1, 4)):
-                cmds.append([rng.choice(["q", "qx"])] + gen_query(rng, used))
+            cmds.append([rng.choice(["q", "qx"])] + gen_query(rng, used, npool))
+
+
+def battery(rng, used, npool, cmds):
     for op in OPS:
-        q = gen_query(rng, used)
+        q = gen_query(rng, used, npool)
         while q[0] != op:
-            q = gen_query(rng, used)
+            q = gen_query(rng, used, npool)
         cmds.append(["q"] + q)
         cmds.append(["qx"] + q)
+    cmds.append(gen_apply(rng, used, npool))
+    cmds.append(["obs"])
+
+
+def small_ops(rng, ids, used, npool, cmds, cur, nops, pq=0.25):
+    """ordinary history: index / reindex / same content again / no value / unindex (known, unknown) / reset, with
+    queries, the enumeration tuple (sometimes twice in a row: results must not be cached) and document_repr"""
+    for _ in range(nops):
+        r = rng.random()
+        d = rng.choice(ids)
+        if cur and rng.random() < 0.3:
+            d = rng.choice(sorted(cur))
+        verb = "reindex" if rng.random() < 0.25 else "index"
+        if r < 0.03:
+            cmds.append(["reset"])
+            cur.clear()
+        elif r < 0.13:
+            d = d if rng.random() < 0.5 else rng.choice(ids)
+            cmds.append(["unindex", d])
+            cur.pop(d, None)
+            if rng.random() < 0.15:
+                cmds.append(["unindex", d])                       # a second time: now unknown
+        elif r < 0.30:
+            cmds.append([verb, d, "none"])
+            cur[d] = "none"
+        elif r < 0.38 and cur.get(d, "none") != "none":
+            cmds.append([verb, d, cur[d]])                        # identical content again
+        else:
+            v = rng.choice(used)
+            cmds.append([verb, d, v])
+            cur[d] = v
+        if rng.random() < pq:
+            gen_queries(rng, used, npool, cmds, rng.randrange(1, 4))
+        if rng.random() < 0.06:
+            cmds.append(["obs"])
+            if rng.random() < 0.3:
+                cmds.append(["obs"])
+        if rng.random() < 0.05:
+            cmds.append(["repr", d])
+
+
+def bulk_ids(rng, fam, n):
+    """n distinct docids: a dense or strided run somewhere in the family's range"""
+    stride = rng.choice([1, 1, 1, 3])
+    span = n * stride
+    bases = [0, 0, -(span // 2), 2 ** 31 - 1 - span, -2 ** 31]
+    if fam == 64:
+        bases += [2 ** 62 - span, -2 ** 62, 2 ** 31 - span // 2]
+    base = rng.choice(bases)
+    return [base + i * stride for i in range(n)]
+
+
+def bulk_sizes(rng, tier):
+    r = rng.random()
+    if r < 0.45:
+        return rng.randrange(70, 131)
+    if r < 0.85 or tier == "quick" and r < 0.95:
+        return rng.randrange(131, 261)
+    return rng.randrange(261, 401)
+
+
+def gen_bulk(rng, tier, fam, vtype, kind):
+    """size-dependent behaviour.  `hot`: 70-400 documents share 1-4 values, the largest posting holds at least 65
+    docids (a Set -> TreeSet style switch at 64, > 120 ints per set bucket); `wide`: 35-110 distinct values (more
+    keys than an OO bucket of 30 / an IO bucket of 60 holds); optionally > 120 documents without a value; then a
+    `drain` that brings the largest posting back to 58..66 docids, an ordinary small history and the battery"""
+    pool = pool_of(vtype)
+    npool = len(pool)
+    n = bulk_sizes(rng, tier)
+    ids = bulk_ids(rng, fam, n)
+    if kind == "wide":
+        used = sorted(rng.sample(range(npool), rng.randrange(35, min(npool, 110) + 1)))
+        vals = [rng.choice(used) for _ in range(n)]
+        hot = used[:1]
+    else:
+        nhot = rng.choice([1, 2, 2, 3, 4])
+        used = sorted(rng.sample(range(npool), min(npool, nhot + rng.randrange(0, 4))))
+        hot = rng.sample(used, min(nhot, len(used)))
+        s0 = rng.randrange(65, n + 1) if rng.random() < 0.7 else rng.randrange(65, min(n, 75) + 1)
+        vals = [hot[0]] * s0 + [rng.choice(hot[1:] or hot) for _ in range(n - s0)]
+    nnone = rng.randrange(121, 200) if rng.random() < 0.12 and kind != "wide" else rng.choice([0, 0, 1, 5])
+    extra = [ids[-1] + 1 + i for i in range(nnone)] if ids[-1] + nnone < (2 ** 31 if fam == 32 else 2 ** 63) \
+        else [ids[0] - 1 - i for i in range(nnone)]
+    pairs = list(zip(ids, vals)) + [(d, "none") for d in extra]
+    order = rng.random()
+    if order < 0.5:
+        rng.shuffle(pairs)
+    elif order < 0.65:
+        pairs.reverse()
+    cmds = []
+    cur = {}
+    for d, v in pairs:
+        cmds.append(["index", d, v])
+        cur[d] = v
+    if rng.random() < 0.5:
+        gen_queries(rng, used, npool, cmds, 3)
+    if kind == "hot" and rng.random() < 0.45:
+        # drain: the largest posting shrinks to the neighbourhood of 64 (demotion-style changes need that)
+        members = [d for d, v in pairs if v == hot[0]]
+        rng.shuffle(members)
+        target = 0 if rng.random() < 0.2 else rng.randrange(58, 67)     # 0: the big posting goes away entirely
+        for d in members[target:]:
+            r = rng.random()
+            if r < 0.6:
+                cmds.append(["unindex", d])
+                cur.pop(d, None)
+            elif r < 0.8:
+                cmds.append(["index", d, "none"])
+                cur[d] = "none"
+            else:
+                v = rng.choice(used)
+                cmds.append(["index", d, v])
+                cur[d] = v
+        gen_queries(rng, used, npool, cmds, 2)
+    # the small history works on a few of the bulk ids (first, last, members of the big posting) and fresh ones
+    top = 2 ** 31 if fam == 32 else 2 ** 63
+    fresh = [ids[-1] + 1000 + i for i in range(3)] if ids[-1] + 1003 < top else [ids[0] - 1000 - i for i in range(3)]
+    some = sorted(set([ids[0], ids[-1]] + rng.sample(ids, 8) + fresh))
+    small_ops(rng, some, used, npool, cmds, cur, rng.randrange(5, 30), pq=0.2)
+    battery(rng, used, npool, cmds)
+    return cmds
+
+
+def gen_history(rng, tier, ids, nvals, maxlen, npool=len(INT_POOL)):
+    used = sorted(rng.sample(range(npool), min(nvals, npool)))
+    cmds = []
+    small_ops(rng, ids, used, npool, cmds, {}, rng.randrange(5, maxlen))
+    battery(rng, used, npool, cmds)
     return cmds
 
 
 def gen(rng, tier, idx):
     fam = rng.choice([32, 64])
+    vtype = rng.choice(VTYPES)
+    cfg = [["cfg", "family", fam], ["cfg", "vtype", vtype],
+           ["cfg", "disc", rng.choice(["attr", "callable"])], ["cfg", "opt", rng.randrange(2)]]
+    r = rng.random()
+    if r < (0.4 if vtype in ("wide", "widestr") else BULK_SHARE):
+        kind = "wide" if vtype in ("wide", "widestr") and rng.random() < 0.7 else "hot"
+        return {"session": "field", "cfg": cfg + [["cfg", "mode", "bulk-" + kind]],
+                "cmds": gen_bulk(rng, tier, fam, vtype, kind)}
     ids = IDS32 if fam == 32 else IDS64
     if rng.random() < 0.5:
         ids = ids[:rng.randrange(3, 10)]
     maxlen = 60 if tier == "quick" or rng.random() < 0.9 else 400
-    cfg = [["cfg", "family", fam], ["cfg", "vtype", rng.choice(["int", "str"])],
-           ["cfg", "disc", rng.choice(["attr", "callable"])], ["cfg", "opt", rng.randrange(2)]]
-    return {"session": "field", "cfg": cfg, "cmds": gen_history(rng, tier, ids, rng.randrange(3, 9), maxlen)}
+    return {"session": "field", "cfg": cfg,
+            "cmds": gen_history(rng, tier, ids, rng.randrange(3, 9), maxlen, len(pool_of(vtype)))}
+
+
+BULK_SHARE = 0.18
 
 
 def cfgdict(case):
     return {c[1]: c[2] for c in case.get("cfg", [])}
 
 
+def model_cmd(c):
+    """the model has one index step (reindex_doc is index_doc) and the comparison entry points; FieldIndex.apply()
+    forms are named by what they mean: eq, any-of, RangeValue = inclusive range, operator 'and' = the
+    intersection of equalities (one value per document: equal constants -> eq, different ones -> nothing)"""
+    if c[0] == "reindex":
+        return ["index"] + list(c[1:])
+    if c[0] == "qa":
+        kind, args = c[2], list(c[3:])
+        if kind == "eq":
+            return ["q", "eq"] + args
+        if kind == "any":
+            return ["q", "any"] + args
+        if kind == "and":
+            return ["q", "eq", args[0]] if args and len(set(args)) == 1 else ["q", "any"]
+        if kind == "range":
+            return ["q", "inrange", args[0], args[1], 0, 0]
+    return c
+
+
 class FieldImpl(object):
     def __init__(self, hyp, cfg):
         import BTrees
         from hypatia.field import FieldIndex
-        self.pool = STR_POOL if cfg.get("vtype") == "str" else INT_POOL
-        self.rank = {repr(v): i for i, v in enumerate(self.pool)}
+        self.vtype = cfg.get("vtype", "int")
+        self.pool = pool_of(self.vtype)
+        self.rank = rank_table(self.vtype)
         fam = BTrees.family32 if cfg.get("family") == 32 else BTrees.family64
         if cfg.get("disc") == "callable":
             disc = lambda obj, default: getattr(obj, "x", default)  # noqa: E731
@@ -114,27 +349,32 @@ class FieldImpl(object):
         self.mk = lambda: FieldIndex(disc, family=fam)
         self.idx = self.mk()
         self.current = {}
+        self.n = 0
 
     def val(self, r):
-        return None if r == "none" else self.pool[r]
+        if r == "none":
+            return None
+        self.n += 1
+        alts = self.pool[r]
+        return alts[self.n % len(alts)]      # equal objects of different types take turns
 
     def doc(self, r):
         o = Doc()
         if r != "none":
-            o.x = self.pool[r]
+            o.x = self.val(r)
         return o
 
     def query(self, via_object, q):
         idx = self.idx
         op = q[0]
         if op in ("any", "notany"):
-            args = ([self.pool[c] for c in q[1:]],)
+            args = ([self.val(c) for c in q[1:]],)
         elif op in ("inrange", "notinrange"):
             args = (self.val(q[1]), self.val(q[2]), bool(q[3]), bool(q[4]))
         elif op == "eqtuple":
-            return idset(idx.applyEq((self.pool[q[1]], self.pool[q[2]])))
+            return idset(idx.applyEq((self.val(q[1]), self.val(q[2]))))
         else:
-            args = (self.pool[q[1]],)
+            args = (self.val(q[1]),)
         if via_object:
             rs = getattr(idx, op)(*args).execute(optimize=self.opt)
             ids = list(rs.ids)
@@ -145,6 +385,24 @@ class FieldImpl(object):
                 "le": "applyLe", "any": "applyAny", "notany": "applyNotAny", "inrange": "applyInRange",
                 "notinrange": "applyNotInRange"}[op]
         return idset(getattr(idx, name)(*args))
+
+    def apply_form(self, form, kind, args):
+        """FieldIndex.apply() itself: {'query': v}, {'query': [..], 'operator': ..}, bare value, list, RangeValue"""
+        from hypatia import RangeValue
+        if kind == "eq":
+            v = self.val(args[0])
+            return self.idx.apply({"query": v} if form == "d" else v)
+        if kind == "range":
+            rv = RangeValue(self.val(args[0]), self.val(args[1]))
+            return self.idx.apply({"query": rv} if form == "d" else rv)
+        vs = [self.val(a) for a in args]
+        if kind == "and":
+            return self.idx.apply({"query": vs, "operator": "and"})
+        if form == "d":
+            return self.idx.apply({"query": vs, "operator": "or"})
+        if form == "dd":
+            return self.idx.apply({"query": vs})
+        return self.idx.apply(vs)
 
     def obs(self, idx=None):
         idx = idx or self.idx
@@ -181,6 +439,8 @@ class FieldImpl(object):
                 return self.query(False, c[1:])
             if op == "qx":
                 return self.query(True, c[1:])
+            if op == "qa":
+                return idset(self.apply_form(c[1], c[2], c[3:]))
             if op == "obs":
                 return self.obs()
             if op == "repr":
@@ -198,23 +458,67 @@ def impl_run(hyp, case):
 
 
 def nontrivial(case, outs):
-    answers = {o for c, o in zip(case["cmds"], outs) if c[0] in ("q", "qx")}
+    answers = {o for c, o in zip(case["cmds"], outs) if c[0] in ("q", "qx", "qa")}
     return len(answers) >= 3 and any(o not in ("{}",) for o in answers)
 
 
+def size_features(case, value_of):
+    """how large the structures got: largest posting, number of distinct values, documents without a value.
+    `value_of(cmd)` -> (docid, value ranks or 'none' or None=forget) for index-like commands"""
+    cur = {}
+    post = {}
+    mp = mv = mn = 0
+    for c in case["cmds"]:
+        if c[0] in ("index", "reindex", "unreindex", "unindex"):
+            d = c[1]
+            old = cur.pop(d, ())
+            for v in (() if old == "none" else old):
+                post[v] -= 1
+                if not post[v]:
+                    del post[v]
+            new = value_of(c) if c[0] != "unindex" else None
+            if new is not None:
+                cur[d] = new
+                for v in (new if new != "none" else ()):
+                    post[v] = post.get(v, 0) + 1
+            mp = max(mp, max(post.values(), default=0))
+            mv = max(mv, len(post))
+            mn = max(mn, sum(1 for x in cur.values() if x == "none")) if new == "none" else mn
+        elif c[0] == "reset":
+            cur, post = {}, {}
+
+    def bucket(n, edges):
+        lo = 0
+        for e in edges:
+            if n <= e:
+                return "%d-%d" % (lo, e)
+            lo = e + 1
+        return ">%d" % edges[-1]
+    return ["max-posting:" + bucket(mp, [16, 63, 64, 120, 300]), "max-values:" + bucket(mv, [8, 30, 60]),
+            "max-novalue:" + bucket(mn, [16, 120])], mp
+
+
 def features(case, outs):
-    f = ["family:%s" % cfgdict(case).get("family"), "vtype:%s" % cfgdict(case).get("vtype")]
+    cfg = cfgdict(case)
+    f = ["family:%s" % cfg.get("family"), "vtype:%s" % cfg.get("vtype"), "mode:%s" % cfg.get("mode", "small")]
+    sf, _ = size_features(case, lambda c: "none" if c[2] == "none" else (c[2],))
+    f += sf
     last = {}
+    prev_cmd = None
     for c, o in zip(case["cmds"], outs):
         if c[0] in ("q", "qx"):
             f.append("%s:%s:%s" % (c[0], c[1], "empty" if o == "{}" else "nonempty" if o.startswith("{") else o))
             if c[1] in ("inrange", "notinrange") and c[2] != "none" and c[3] != "none" and c[2] > c[3]:
                 f.append("inverted-range")
-        elif c[0] == "index":
+        elif c[0] == "qa":
+            f.append("apply:%s:%s:%s" % (c[1], c[2], "empty" if o == "{}" else "nonempty" if o.startswith("{") else o))
+        elif c[0] in ("index", "reindex"):
             prev = last.get(c[1], "unknown")
             now = "none" if c[2] == "none" else "val"
             f.append("index:%s->%s%s" % ("none" if prev == "none" else "unknown" if prev == "unknown" else "val", now,
                                          "(same)" if prev == c[2] and now == "val" else ""))
+            if c[0] == "reindex":
+                f.append("via-reindex_doc")
             last[c[1]] = c[2]
         elif c[0] == "unindex":
             f.append("unindex:%s" % ("known" if c[1] in last else "unknown"))
@@ -222,14 +526,23 @@ def features(case, outs):
         elif c[0] == "reset":
             last = {}
             f.append("reset")
+        elif c[0] == "obs":
+            f.append("obs-twice" if prev_cmd == ["obs"] else "obs")
+        elif c[0] == "repr":
+            f.append("repr:%s" % ("default" if o == "none" else "value"))
         if isinstance(o, str) and o.startswith("err"):
             f.append(o)
+        prev_cmd = c
     return f
 
 
 def classify(case, i, impl, model, spec):
     c = case["cmds"][i]
     if c[0] in ("q", "qx") and c[1] == "eqtuple":
+        return "D13"
+    # a tuple constant handed to Eq / apply() is the legacy range (2-tuple) or any-of (other lengths) form
+    if cfgdict(case).get("vtype") == "tuple" and (
+            (c[0] in ("q", "qx") and c[1] in ("eq", "noteq")) or (c[0] == "qa" and c[2] == "eq")):
         return "D13"
     return None
 
